@@ -2,6 +2,20 @@
 Pure and kernel-reducible; validated against the host FPU by the C11 correspondence run. -/
 namespace Arroy.SF
 
+/-! ### compiled-code accelerator
+
+`2 ^ k` on `Nat` goes through the big-number library even for small `k`. The definitions below are what the
+theorems are about; each hot one is followed by a copy that computes small powers of two with a machine
+shift (`pow2`), and a `@[csimp]` THEOREM (kernel-checked equality of the two functions) that lets the
+compiler use the copy in the driver executable. Nothing here changes a definition the proofs mention. -/
+def pow2Small (b : Nat) : Nat := ((1 : UInt64) <<< b.toUInt64).toNat
+theorem pow2Small_eq : ∀ b : Fin 63, pow2Small b.val = 2 ^ b.val := by decide +kernel
+def pow2 (b : Nat) : Nat := if b < 63 then pow2Small b else 2 ^ b
+theorem pow2_eq (b : Nat) : pow2 b = 2 ^ b := by
+  unfold pow2; split
+  · rename_i h; exact pow2Small_eq ⟨b, h⟩
+  · rfl
+
 structure Fmt where
   p : Nat        -- precision incl. hidden bit (24 / 53)
   ebits : Nat    -- exponent field width (8 / 11)
@@ -9,7 +23,11 @@ deriving Repr
 
 namespace Fmt
 def bias (f : Fmt) : Nat := 2^(f.ebits - 1) - 1
+def biasFast (f : Fmt) : Nat := pow2 (f.ebits - 1) - 1
+@[csimp] theorem bias_eq_fast : @bias = @biasFast := by funext f; simp only [bias, biasFast, pow2_eq]
 def emaxField (f : Fmt) : Nat := 2^f.ebits - 1
+def emaxFieldFast (f : Fmt) : Nat := pow2 f.ebits - 1
+@[csimp] theorem emaxField_eq_fast : @emaxField = @emaxFieldFast := by funext f; simp only [emaxField, emaxFieldFast, pow2_eq]
 /-- exponent of the least significant bit of a subnormal -/
 def qmin (f : Fmt) : Int := 1 - (f.bias : Int) - ((f.p : Int) - 1)
 def width (f : Fmt) : Nat := f.ebits + f.p
@@ -35,8 +53,25 @@ def unpack (f : Fmt) (b : Nat) : V :=
   else if ex == 0 then .fin neg frac f.qmin
   else .fin neg (frac + 2^(f.p - 1)) ((ex : Int) - (f.bias : Int) - ((f.p : Int) - 1))
 
+def unpackFast (f : Fmt) (b : Nat) : V :=
+  let frac := b % (pow2 (f.p - 1))
+  let ex := (b / (pow2 (f.p - 1))) % (pow2 f.ebits)
+  let neg := (b / (pow2 (f.width - 1))) % 2 == 1
+  if ex == f.emaxField then (if frac == 0 then .inf neg else .nan)
+  else if ex == 0 then .fin neg frac f.qmin
+  else .fin neg (frac + (pow2 (f.p - 1))) ((ex : Int) - (f.bias : Int) - ((f.p : Int) - 1))
+@[csimp] theorem unpack_eq_fast : @unpack = @unpackFast := by
+  funext f b
+  simp only [unpack, unpackFast, pow2_eq]
+
 def packBits (f : Fmt) (neg : Bool) (ex frac : Nat) : Nat :=
   (if neg then 2^(f.width - 1) else 0) + ex * 2^(f.p - 1) + frac
+
+def packBitsFast (f : Fmt) (neg : Bool) (ex frac : Nat) : Nat :=
+  (if neg then (pow2 (f.width - 1)) else 0) + ex * (pow2 (f.p - 1)) + frac
+@[csimp] theorem packBits_eq_fast : @packBits = @packBitsFast := by
+  funext f neg ex frac
+  simp only [packBits, packBitsFast, pow2_eq]
 
 def qnan (f : Fmt) : Nat := packBits f false f.emaxField (2^(f.p - 2))
 def infBits (f : Fmt) (neg : Bool) : Nat := packBits f neg f.emaxField 0
@@ -63,6 +98,30 @@ def roundPack (f : Fmt) (neg : Bool) (m : Nat) (e : Int) (sticky : Bool := false
     if exField ≥ (f.emaxField : Int) then infBits f neg
     else packBits f neg exField.toNat (mant - 2^(f.p - 1))
 
+def roundPackFast (f : Fmt) (neg : Bool) (m : Nat) (e : Int) (sticky : Bool := false) : Nat :=
+  if m == 0 && !sticky then packBits f neg 0 0 else
+  let n := bitLen m
+  let q : Int := max (e + (n : Int) - (f.p : Int)) f.qmin
+  let shift : Int := q - e
+  let (mant, q) :=
+    if shift ≤ 0 then (m * (pow2 (shift.natAbs)), q)   
+    else
+      let s := shift.toNat
+      let hi := m / (pow2 s)
+      let rem := m % (pow2 s)
+      let half := (pow2 (s-1))
+      let up := rem > half || (rem == half && (sticky || hi % 2 == 1))
+      let hi := if up then hi + 1 else hi
+      if hi == (pow2 f.p) then ((pow2 (f.p - 1)), q + 1) else (hi, q)
+  if mant < (pow2 (f.p - 1)) then packBits f neg 0 mant     
+  else
+    let exField : Int := q + (f.bias : Int) + ((f.p : Int) - 1)
+    if exField ≥ (f.emaxField : Int) then infBits f neg
+    else packBits f neg exField.toNat (mant - (pow2 (f.p - 1)))
+@[csimp] theorem roundPack_eq_fast : @roundPack = @roundPackFast := by
+  funext f neg m e sticky
+  simp only [roundPack, roundPackFast, pow2_eq]
+
 /-- exact sum of two finite values as (neg, m, e) -/
 def exactAdd (n1 : Bool) (m1 : Nat) (e1 : Int) (n2 : Bool) (m2 : Nat) (e2 : Int) : Bool × Nat × Int :=
   let e := min e1 e2
@@ -70,6 +129,16 @@ def exactAdd (n1 : Bool) (m1 : Nat) (e1 : Int) (n2 : Bool) (m2 : Nat) (e2 : Int)
   let b : Int := (m2 * 2^((e2 - e).toNat) : Nat)
   let s : Int := (if n1 then -a else a) + (if n2 then -b else b)
   (s < 0, s.natAbs, e)
+
+def exactAddFast (n1 : Bool) (m1 : Nat) (e1 : Int) (n2 : Bool) (m2 : Nat) (e2 : Int) : Bool × Nat × Int :=
+  let e := min e1 e2
+  let a : Int := (m1 * (pow2 ((e1 - e).toNat)) : Nat)
+  let b : Int := (m2 * (pow2 ((e2 - e).toNat)) : Nat)
+  let s : Int := (if n1 then -a else a) + (if n2 then -b else b)
+  (s < 0, s.natAbs, e)
+@[csimp] theorem exactAdd_eq_fast : @exactAdd = @exactAddFast := by
+  funext n1 m1 e1 n2 m2 e2
+  simp only [exactAdd, exactAddFast, pow2_eq]
 
 def addV (f : Fmt) (x y : V) : Nat :=
   match x, y with
@@ -147,11 +216,27 @@ def sqrt (f : Fmt) (a : Nat) : Nat :=
 def neg (f : Fmt) (a : Nat) : Nat :=
   if a / 2^(f.width - 1) % 2 == 1 then a - 2^(f.width - 1) else a + 2^(f.width - 1)
 
+def negFast (f : Fmt) (a : Nat) : Nat :=
+  if a / (pow2 (f.width - 1)) % 2 == 1 then a - (pow2 (f.width - 1)) else a + (pow2 (f.width - 1))
+@[csimp] theorem neg_eq_fast : @neg = @negFast := by
+  funext f a
+  simp only [neg, negFast, pow2_eq]
+
 def abs (f : Fmt) (a : Nat) : Nat := a % 2^(f.width - 1)
+
+def absFast (f : Fmt) (a : Nat) : Nat := a % (pow2 (f.width - 1))
+@[csimp] theorem abs_eq_fast : @abs = @absFast := by
+  funext f a
+  simp only [abs, absFast, pow2_eq]
 
 def isNaN (f : Fmt) (a : Nat) : Bool := match unpack f a with | .nan => true | _ => false
 
 def signBit (f : Fmt) (a : Nat) : Bool := a / 2^(f.width - 1) % 2 == 1
+
+def signBitFast (f : Fmt) (a : Nat) : Bool := a / (pow2 (f.width - 1)) % 2 == 1
+@[csimp] theorem signBit_eq_fast : @signBit = @signBitFast := by
+  funext f a
+  simp only [signBit, signBitFast, pow2_eq]
 
 /-- the value as an exact rational-free comparison key: compare two non-NaN values -/
 def ltV : V → V → Bool
